@@ -430,6 +430,40 @@ func c17Lucky(p *ana.Prog, r *ana.Result) {
 		}
 		okState = false
 	})
+	// the same shift written as a loop: for i := 1; i < len; i++ { state[i-1] = state[i] }
+	ana.Instrs(do, func(in ssa.Instruction) {
+		st, ok := in.(*ssa.Store)
+		if !ok {
+			return
+		}
+		ia, ok := st.Addr.(*ssa.IndexAddr)
+		if !ok || ana.AccessPath(ia.X) != "f.state" {
+			return
+		}
+		good := false
+		if sub, ok := ia.Index.(*ssa.BinOp); ok && sub.Op == token.SUB {
+			if k, _ := ana.ConstInt(sub.Y); k == 1 {
+				if ph, ok := sub.X.(*ssa.Phi); ok {
+					from1 := false
+					for _, e := range ph.Edges {
+						if k, ok := ana.ConstInt(e); ok && k == 1 {
+							from1 = true
+						}
+					}
+					if ld, ok := st.Val.(*ssa.UnOp); ok && from1 {
+						if ia2, ok := ld.X.(*ssa.IndexAddr); ok && ia2.Index == ssa.Value(ph) && ana.AccessPath(ia2.X) == "f.state" {
+							good = true
+						}
+					}
+				}
+			}
+		}
+		if good {
+			shiftOK = true
+		} else {
+			okState = false
+		}
+	})
 	// shift only when full
 	full := ana.FindGate(p, do, "len(state)==cap(state)", func(c ana.Cmp, isCmp bool, _ ssa.Value) (bool, bool) {
 		if !isCmp || (c.Op != token.EQL && c.Op != token.NEQ) || !isLenOf(c.X) {
